@@ -12,7 +12,7 @@ package decoder
 //
 //@ func NewDecoder
 //@   check safety, frame
-//@   ensures wf(result) && result.offset == 0 && result.lasterror == nil
+//@   ensures result != nil && wf(result) && result.offset == 0 && result.lasterror == nil
 //@   ensures len(result.data) == len(data) && same(result.data, data)
 //@   modifies nothing
 //
